@@ -400,6 +400,17 @@ StageClausesW(s, e, t, connS, connT) ==
             /\ DOMAIN T.wt = DOMAIN S.wt \cup R
             /\ \A p \in DOMAIN S.wt \ R : T.wt[p] = S.wt[p]
             /\ T.idx = S.idx),
+    (* the same files named through another spelling of their paths (./f, d/./g, d//g, d/../f): what the arguments *)
+    (* name after lexical cleaning is what counts                                                                 *)
+    Cl("C09_Spelled", {"C09"}, e.ev = "restore" /\ ~Dom(e) /\ "cpaths" \in DOMAIN e /\ Len(e.cpaths) > 0
+                                 /\ (\A i \in 1..Len(e.cpaths) : Tracked(S, e.cpaths[i]) /\ e.cpaths[i] \in DOMAIN S.wt)
+                                 /\ Cardinality(SeqToSet(e.cpaths)) = Len(e.cpaths),
+        (e.ev = "restore" /\ ~Dom(e) /\ "cpaths" \in DOMAIN e /\ Len(e.cpaths) > 0
+            /\ (\A i \in 1..Len(e.cpaths) : Tracked(S, e.cpaths[i]) /\ e.cpaths[i] \in DOMAIN S.wt)
+            /\ Cardinality(SeqToSet(e.cpaths)) = Len(e.cpaths)) =>
+            /\ Ok(e)
+            /\ \A i \in 1..Len(e.cpaths) : e.cpaths[i] \in DOMAIN T.wt /\ T.wt[e.cpaths[i]] = Obj(S, IdxId(S.idx, e.cpaths[i])).d
+            /\ T.idx = S.idx),
     Cl("C09_RestoreFound", {"C09", "C06"}, isRestore /\ Len(e.paths) > 0 /\ ArgsAllTracked(S, ArgSet(e)) /\ ~WtConflict(S, SelAll(S, ArgSet(e))),
         isRestore /\ Len(e.paths) > 0 /\ ArgsAllTracked(S, ArgSet(e)) /\ ~WtConflict(S, SelAll(S, ArgSet(e))) => Ok(e)),
     Cl("C09_Unknown", {"C09", "C06"}, isRestore /\ Len(e.paths) > 0 /\ SelTracked(S, e.paths[1]) = {},
@@ -540,7 +551,7 @@ RefClausesW(s, e, t, connS, connT) ==
         IsCmd(e) /\ HasObs(s, "reflog") /\ s.obs.reflog.res = "ok" /\ HasObs(t, "reflog") /\ connS =>
             /\ t.obs.reflog.res = "ok"
             /\ \E k \in 0..Len(View(t)) : ShiftsBy(View(s), View(t), k)),
-    Cl("C11_SwitchEntry", {"C11"}, e.ev \in {"switch", "switchc"} /\ Ok(e) /\ HasObs(t, "reflog") /\ ok0 /\ HeadHasCommit(T),
+    Cl("C11_SwitchEntry", {"C11", "C10"}, e.ev \in {"switch", "switchc"} /\ Ok(e) /\ HasObs(t, "reflog") /\ ok0 /\ HeadHasCommit(T),
         e.ev \in {"switch", "switchc"} /\ Ok(e) /\ HasObs(t, "reflog") /\ ok0 /\ HeadHasCommit(T) =>
             /\ t.obs.reflog.res = "ok"
             /\ Len(View(t)) >= Len(View(s)) + 1
@@ -567,7 +578,7 @@ ConfigClauses(s, e, t) ==
     IN
     <<
     Cl("C20_SetOk", {"C20"}, isCfg, isCfg => Ok(e)),
-    Cl("C20_Set", {"C20"}, isCfg /\ Ok(e),
+    Cl("C20_Set", {"C20", "C02", "C12"}, isCfg /\ Ok(e),
         isCfg /\ Ok(e) =>
             /\ new.present /\ new.ok /\ other
             /\ DOMAIN new.sec = DOMAIN old.sec \cup {e.sec}
